@@ -19,6 +19,8 @@
 (*    be read back as "<digits>:" port prefix (host:0:80:x);                *)
 (*  - parseDocker rejects an empty user name ("docker://@a@b/p"), as        *)
 (*    parseSCPSSH always did;                                               *)
+(*  - formatSSH also writes ":0" when the text would otherwise begin with    *)
+(*    the Docker URL prefix (host "docker", path "//x": docker:0://x);       *)
 (*  - user/host/container names beginning with "-" are rejected (C36).      *)
 (***************************************************************************)
 EXTENDS Naturals, Sequences, FiniteSets, TLC
@@ -94,7 +96,12 @@ Norm(p, H, W) ==
                     ELSE Clean(W \o <<"/">> \o p)]
 
 \* ---------------------------------------------------------------- classification
-IsDocker(s) == s # <<>> /\ s[1] \in {"docker://", "DOCKER://", "Docker://"}
+\* strings.HasPrefix(strings.ToLower(raw), "docker://"): the prefix as one token, or spelled by a
+\* scheme-word token followed by ":", "/", "/" (an SCP-style text for a host named "docker")
+DockerCut(s) == IF s # <<>> /\ s[1] \in {"docker://", "DOCKER://", "Docker://"} THEN 1
+                ELSE IF Len(s) >= 4 /\ s[1] \in {"docker", "DOCKER", "Docker"} /\ s[2] = ":" /\ s[3] = "/" /\ s[4] = "/" THEN 4
+                ELSE 0
+IsDocker(s) == DockerCut(s) > 0
 IsSCPSSH(s, kind) ==
   IF kind = "sync" THEN LET i == First(s, {":", "/"}) IN i > 0 /\ s[i] = ":"
   ELSE ~FwdParse(s).ok /\ CountTok(s, ":") >= 2
@@ -125,7 +132,7 @@ ParseSSH(s, kind) ==
 
 \* ---------------------------------------------------------------- parse_docker.go parseDocker
 ParseDocker(s, kind, E) ==
-  LET raw == Tail(s)
+  LET raw == From(s, DockerCut(s) + 1)
       split == IF kind = "sync" THEN "/" ELSE ":"
       i == First(raw, {split, "@"})
       hasUser == i > 0 /\ raw[i] = "@"
@@ -173,7 +180,9 @@ Format(u) ==
   IF u.proto = "local" THEN u.path
   ELSE IF u.proto = "ssh" THEN
        (IF u.user # <<>> THEN u.user \o <<"@">> ELSE <<>>) \o u.host
-    \o (IF u.port # 0 \/ PortLike(u.path) THEN <<":">> \o ToDigits(u.port) ELSE <<>>)
+    \o (IF u.port # 0 \/ PortLike(u.path)
+           \/ IsDocker((IF u.user # <<>> THEN u.user \o <<"@">> ELSE <<>>) \o u.host \o <<":">> \o u.path)
+        THEN <<":">> \o ToDigits(u.port) ELSE <<>>)
     \o <<":">> \o u.path
   ELSE LET base == (IF u.user # <<>> THEN u.user \o <<"@">> ELSE <<>>) \o u.host IN
     IF u.kind = "sync" THEN
@@ -217,6 +226,30 @@ GLens == <<Len(GUser), Len(GHost), Len(GPort), Len(GSep), Len(GPath)>>
 GramAt(g) == GUser[g[1]] \o GHost[g[2]] \o GPort[g[3]] \o GSep[g[4]] \o GPath[g[5]]
 GramTuples == {<<a, b, c, d, e>> : a \in DOMAIN GUser, b \in DOMAIN GHost, c \in DOMAIN GPort, d \in DOMAIN GSep, e \in DOMAIN GPath}
 GramSize == Len(GUser) * Len(GHost) * Len(GPort) * Len(GSep) * Len(GPath)
+
+\* The case domain: forwarding-endpoint protocols and the docker:// scheme in lower / UPPER / Mixed case,
+\* crossed with relative, absolute, home-relative, ~user, Windows and host:port addresses, behind a local,
+\* SSH or Docker head:  head  protocol ":" address   (both URL kinds).
+CProto == <<"tcp", "TCP", "Tcp", "tcp4", "TCP4", "Tcp4", "tcp6", "unix", "UNIX", "Unix", "npipe", "NPIPE", "Npipe">>
+CAddr == << <<"a">>, <<"/", "a">>, <<"~", "/", "a">>, <<"~", "a", "/", "a">>, <<"a", ":", "/", "a">>, <<"a", ":", "8">>, <<>> >>
+CHead == << <<>>, <<"a", ":">>, <<"a", "@", "a", ":">>, <<"a", ":", "8", ":">>, <<"docker://", "a", ":">>, <<"DOCKER://", "a", ":">>,
+            <<"Docker://", "a", "@", "a", ":">>, <<"DOCKER://", "a", "/">>, <<"Docker://", "a", "/">> >>
+CaseAt(g) == CHead[g[1]] \o <<CProto[g[2]], ":">> \o CAddr[g[3]]
+CaseTuples == {<<a, b, c>> : a \in DOMAIN CHead, b \in DOMAIN CProto, c \in DOMAIN CAddr}
+CaseSize == Len(CHead) * Len(CProto) * Len(CAddr)
+CLens == <<Len(CHead), Len(CProto), Len(CAddr)>>
+
+\* The scheme-word domain: SCP-style texts whose host spells a scheme or protocol word, with and without
+\* a (zero) port and with paths that would make the formatted text be dispatched differently by Parse
+\* (isDockerURL -> isSCPSSHURL -> local):   user-part host port-part ":" path
+SUser == << <<>>, <<"a", "@">> >>
+SHost == <<"docker", "DOCKER", "Docker", "ssh", "tcp", "unix">>
+SPort == << <<>>, <<":", "0">>, <<":", "0", "0">>, <<":", "8">> >>
+SPath == << <<"/", "/", "a", "/", "a">>, <<"/", "/">>, <<"/", "a">>, <<"~">>, <<"8", ":", "a">>, <<"a">>, <<"tcp", ":", "a", ":", "8">> >>
+SchemeAt(g) == SUser[g[1]] \o <<SHost[g[2]]>> \o SPort[g[3]] \o <<":">> \o SPath[g[4]]
+SchemeTuples == {<<a, b, c, d>> : a \in DOMAIN SUser, b \in DOMAIN SHost, c \in DOMAIN SPort, d \in DOMAIN SPath}
+SchemeSize == Len(SUser) * Len(SHost) * Len(SPort) * Len(SPath)
+SLens == <<Len(SUser), Len(SHost), Len(SPort), Len(SPath)>>
 
 \* ---------------------------------------------------------------- C38 on the model
 RoundTrip(s, kind, H, W, E) ==
